@@ -20,9 +20,17 @@
 //! `verify_p3_batch_proof_circuit` (which reach `verify_fri_circuit`) → `CircuitBuilder::build` →
 //! `pack_values` → `set_public/private_inputs` → `set_*_mmcs_private_data` → `run`.
 //!
+//! Crash isolation: the parent process only proves and judges the HONEST object of a configuration.
+//! EVERY faulted case, whatever its class, is executed in child processes of this binary
+//! (`--worker <config>`, sequential, `ulimit -v` 4 GiB, per-case watchdog); configurations are
+//! driven in parallel, the number of live children is bounded. A child that dies (allocation
+//! failure = SIGABRT, stack overflow = SIGSEGV, watchdog kill) is replaced for the remaining
+//! cases and the one case in flight gets outcome "abort" (if it died inside the NATIVE verifier
+//! the case is re-run with the native half skipped — native crashes are not the subject).
+//!
 //! Oracle (the two clauses of the property statement):
-//! (a) no entry point PANICS (caught with `quiet_catch`) or ABORTS (integer and parameter faults run in
-//!     a child process of this binary under `ulimit -v`; a dead child = outcome "abort");
+//! (a) no entry point PANICS (caught with `quiet_catch`) or ABORTS (a dead child = outcome "abort",
+//!     violation key `abort|<fault class>`);
 //! (b) never a WEAKER circuit: if the circuit is returned and its run is `Ok` on the malformed object
 //!     while Plonky3's native verifier (same object, same parameters) returns `Err`, the circuit
 //!     checks less than the well-formed shape requires.
@@ -36,7 +44,6 @@ use std::sync::atomic::{AtomicU64, Ordering};
 use std::sync::mpsc;
 use std::time::{Duration, Instant};
 
-use vpcore::rayon::prelude::*;
 use vpcore::serde_json::{self, Value, json};
 use vpcore::{Ctx, Histo, Report, finish, machinery_error};
 use vpe4::tree::{Path, get, get_mut};
@@ -222,14 +229,6 @@ impl Case {
             "selftest" => Case::SelfTest(v["k"].as_str()?.to_string()),
             _ => return None,
         })
-    }
-    /// Integer-valued faults may make the code under test allocate without bound or loop for
-    /// 2^63 steps: they run in a child process under a memory limit and a watchdog.
-    fn needs_worker(&self) -> bool {
-        match self {
-            Case::Tree(f) | Case::Meta(f) => f.is_int(),
-            Case::Param { .. } | Case::NoMmcs | Case::SelfTest(_) => true,
-        }
     }
     /// Fault class: kind + path with indices abstracted, no values.
     fn class(&self, fx: &Fixture) -> String {
@@ -593,10 +592,6 @@ impl Judged {
     }
 }
 
-fn judge(fx: &Fixture, case: &Case) -> Option<Judged> {
-    judge_with(fx, case, false, &mut || {})
-}
-
 /// `None` = the fault does not apply to this object. `skip_native`: the native verifier killed
 /// its process on this object before (seen by the parent of a worker), only the circuit side is
 /// run. `native_done` is called between the two halves.
@@ -711,10 +706,27 @@ fn worker_main(name: &str) -> ! {
     std::process::exit(0);
 }
 
+/// Counting semaphore: bounds the number of live child processes (each may grow to `mem_kb`).
+struct Sem(Mutex<usize>, std::sync::Condvar);
+impl Sem {
+    fn acquire(&self) {
+        let mut g = self.0.lock().unwrap();
+        while *g == 0 {
+            g = self.1.wait(g).unwrap();
+        }
+        *g -= 1;
+    }
+    fn release(&self) {
+        *self.0.lock().unwrap() += 1;
+        self.1.notify_one();
+    }
+}
+
 struct WorkerCfg {
     exe: std::path::PathBuf,
     mem_kb: u64,
     case_timeout: Duration,
+    sem: Sem,
 }
 
 /// Runs `cases` (index, case) of configuration `name` in child processes; a child that dies or
@@ -728,6 +740,7 @@ fn run_in_worker(w: &WorkerCfg, name: &str, honest_hash: u64, cases: &[(usize, C
         if deadline() {
             break;
         }
+        w.sem.acquire();
         let mut child = Command::new("sh")
             .arg("-c")
             .arg(format!("ulimit -v {}; exec \"$0\" --worker \"$1\"", w.mem_kb))
@@ -799,6 +812,9 @@ fn run_in_worker(w: &WorkerCfg, name: &str, honest_hash: u64, cases: &[(usize, C
                         results.push((i, if v.is_null() { None } else { Judged::from_json(&v) }));
                         pos += 1;
                         in_flight = None;
+                        if deadline() {
+                            break;
+                        }
                     } else if l.starts_with("MACHINERY-ERROR") {
                         machinery_error(&format!("worker for {name}: {l}"));
                     }
@@ -831,6 +847,7 @@ fn run_in_worker(w: &WorkerCfg, name: &str, honest_hash: u64, cases: &[(usize, C
         }
         let _ = child.kill();
         let _ = child.wait();
+        w.sem.release();
         let _ = feeder.join();
         let _ = reader.join();
         if pos < cases.len() {
@@ -868,22 +885,25 @@ fn violation_key(fx: &Fixture, case: &Case, j: &Judged, honest_sig: Option<[usiz
     let class = case.key_class(fx);
     // Clause (b), structural form: a list of the PROOF was shortened, the native verifier rejects the
     // object, yet a circuit is returned and it verifies FEWER Merkle openings (non-primitive MMCS
-    // ops) than the circuit of the well-formed shape — the list was truncated silently. The run
+    // ops) or takes FEWER private proof values (opened rows, sibling coefficients) than the circuit
+    // of the well-formed shape — the list was truncated silently. The run
     // of such a circuit on the honestly packed object usually fails for arithmetic reasons, which
     // is luck, not a check: a prover who also adapts the values is not stopped by it. (On the
     // unchanged tree only `query_proofs` behaves like this — the known finding RC11; lengthened
     // or cap faults legitimately change the Merkle depth and are not covered by this rule.)
     if let (Case::Tree(f), Some(sg), Some(h)) = (case, j.sig, honest_sig) {
         let shortened = matches!(f.kind(&fx.honest).as_str(), "pop" | "empty" | "pop_first");
-        if shortened && j.native_tag.starts_with("reject") && j.outcome == "run_reject" && sg[1] < h[1] {
+        if shortened && j.native_tag.starts_with("reject") && j.outcome == "run_reject" && (sg[1] < h[1] || sg[3] < h[3]) {
             return Some((
                 format!("weaker|{}|{}", class, family(fx)),
                 format!(
-                    "{}: {} → a verification circuit is returned that verifies {} Merkle openings instead of the {} of the well-formed shape (its run fails only at `{}`: {}); native verifier rejects the object ({})",
+                    "{}: {} → a verification circuit is returned that verifies {} Merkle openings over {} private proof values instead of the {} / {} of the well-formed shape (its run fails only at `{}`: {}); native verifier rejects the object ({})",
                     fx.name,
                     case.show(),
                     sg[1],
+                    sg[3],
                     h[1],
+                    h[3],
                     j.stage,
                     j.circuit_tag,
                     j.native_tag
@@ -934,12 +954,8 @@ fn replay(ctx: &Ctx, path: &std::path::Path, w: &WorkerCfg) -> ! {
     let case = Case::from_json(&r["case"]).unwrap_or_else(|| machinery_error("replay: no case"));
     let spec = vpe4::find_spec(cfg).unwrap_or_else(|| machinery_error(&format!("replay: unknown config {cfg}")));
     let fx = (spec.make)().unwrap_or_else(|e| machinery_error(&e));
-    let j = if case.needs_worker() {
-        let h = fnv(&fx.honest.to_string());
-        run_in_worker(w, cfg, h, &[(0, case.clone())], &|| false).pop().and_then(|x| x.1)
-    } else {
-        judge(&fx, &case)
-    };
+    let h = fnv(&fx.honest.to_string());
+    let j = run_in_worker(w, cfg, h, &[(0, case.clone())], &|| false).pop().and_then(|x| x.1);
     let report = Report::new();
     let Some(j) = j else { machinery_error("replay: the fault does not apply") };
     println!("replaying {cfg}: {} -> native {} | circuit {} at `{}` => {}", case.show(), j.native_tag, j.circuit_tag, j.stage, j.outcome);
@@ -964,6 +980,7 @@ fn main() {
         exe: std::env::current_exe().unwrap_or_else(|e| machinery_error(&format!("current_exe: {e}"))),
         mem_kb: ctx.opt("worker_mem_kb").and_then(|s| s.parse().ok()).unwrap_or(4 * 1024 * 1024),
         case_timeout: Duration::from_secs(ctx.opt("case_timeout_s").and_then(|s| s.parse().ok()).unwrap_or(120)),
+        sem: Sem(Mutex::new(ctx.opt("max_children").and_then(|s| s.parse().ok()).unwrap_or(14)), std::sync::Condvar::new()),
     };
     if let Some(p) = &ctx.replay {
         replay(&ctx, &p.clone(), &w);
@@ -1000,17 +1017,17 @@ fn main() {
     let unjudged_param: Mutex<BTreeMap<String, u64>> = Mutex::new(BTreeMap::new());
     let smaller: Mutex<BTreeMap<String, u64>> = Mutex::new(BTreeMap::new());
     let samples: Mutex<BTreeMap<String, Vec<Value>>> = Mutex::new(BTreeMap::new());
-    let mut per_config = vec![];
-    let (mut evaluations, mut nontrivial, mut planned_total, mut skipped_total, mut not_applicable) = (0u64, 0u64, 0u64, 0u64, 0u64);
-    let mut not_a_proof_total = 0u64;
-    let mut configs_done = 0usize;
-    let mut exhaustive = true;
+    let per_config: Mutex<Vec<(usize, Value)>> = Mutex::new(vec![]);
+    let (evaluations, nontrivial, planned_total, skipped_total, not_applicable, not_a_proof_total) =
+        (AtomicU64::new(0), AtomicU64::new(0), AtomicU64::new(0), AtomicU64::new(0), AtomicU64::new(0), AtomicU64::new(0));
+    let configs_done = AtomicU64::new(0);
+    let next_spec = AtomicU64::new(0);
 
-    for spec in specs {
-        if ctx.out_of_time() || (ctx.quick() && ctx.used() > 0.8) {
-            exhaustive = false;
-            break;
-        }
+    // One configuration: the parent only proves the HONEST object and judges it (no fault is ever
+    // executed in this process); every faulted case — whatever its class — runs in child processes
+    // of this binary under `ulimit -v` and the per-case watchdog. A child that dies is replaced and
+    // the case in flight (exactly one: children work sequentially) gets outcome "abort".
+    let run_config = |ci: usize, spec: &vpe4::FixtureSpec| {
         let t0 = Instant::now();
         let fx = (spec.make)().unwrap_or_else(|e| machinery_error(&format!("cannot build fixture: {e}")));
         let hn = fx.native_verify(&fx.honest);
@@ -1020,21 +1037,20 @@ fn main() {
         let (hc, hstage) = fx.circuit_verify_fresh_staged(&fx.honest);
         let honest_sig = vpe4::last_build_sig();
         // C01's known findings: two shapes whose honest proof the circuit rejects. Clause (a) is
-        // still meaningful there; clause (b) cannot fire.
+        // still meaningful there; of clause (b) only the structural form can fire.
         let honest_note = if hc.accepts() { "accepted by both".to_string() } else { format!("native accepts, circuit {} at `{hstage}` (C01's finding; clause (b) vacuous here)", hc.tag()) };
+        fx.release_thread_engine();
 
         let mut cases = all_cases(&fx, !ctx.quick());
-        if let (Some(k), 0) = (ctx.opt("selftest"), configs_done) {
+        if let (Some(k), 0) = (ctx.opt("selftest"), ci) {
             cases.push(Case::SelfTest(k.to_string()));
         }
-        planned_total += cases.len() as u64;
+        planned_total.fetch_add(cases.len() as u64, Ordering::Relaxed);
         let indexed: Vec<(usize, Case)> = cases.iter().cloned().enumerate().collect();
-        let (wk, inproc): (Vec<_>, Vec<_>) = indexed.into_iter().partition(|(_, c)| c.needs_worker());
         let ev = AtomicU64::new(0);
         let nt = AtomicU64::new(0);
         let na = AtomicU64::new(0);
         let nap = AtomicU64::new(0);
-        let skipped = AtomicU64::new(0);
         let cfg_out = Histo::new();
 
         let record = |idx: usize, case: &Case, j: Option<Judged>| {
@@ -1068,7 +1084,7 @@ fn main() {
             let case_json = json!({"config": fx.name, "case": case.to_json(), "class": class, "judged": j.to_json()});
             match violation_key(&fx, case, &j, honest_sig) {
                 // among the cases of one key keep the first configuration's first case (independent of thread timing)
-                Some((key, what)) => report.violation_sized(key, what, case_json.clone(), configs_done * 1_000_000 + idx),
+                Some((key, what)) => report.violation_sized(key, what, case_json.clone(), ci * 1_000_000 + idx),
                 None => {
                     if j.outcome == "ok+native_reject" {
                         *unjudged_param.lock().unwrap().entry(format!("{class} (native {})", j.native_tag)).or_default() += 1;
@@ -1083,26 +1099,17 @@ fn main() {
         };
 
         let h = fnv(&fx.honest.to_string());
+        let n_workers = (indexed.len() / 500).clamp(1, 4);
+        let chunk = indexed.len().div_ceil(n_workers).max(1);
+        let mut got = 0usize;
         std::thread::scope(|sc| {
-            // integer / parameter faults: child processes (a few in parallel), concurrently with
-            // the in-process sweep
-            let n_workers = (wk.len() / 24).clamp(1, 6);
-            let chunk = wk.len().div_ceil(n_workers).max(1);
-            let handles: Vec<_> = wk
+            let handles: Vec<_> = indexed
                 .chunks(chunk)
                 .map(|part| {
                     let (w, name, ctx) = (&w, fx.name.clone(), &ctx);
-                    sc.spawn(move || run_in_worker(w, &name, h, part, &|| ctx.out_of_time()))
+                    sc.spawn(move || run_in_worker(w, &name, h, part, &|| ctx.out_of_time() || (ctx.quick() && ctx.used() > 0.9)))
                 })
                 .collect();
-            inproc.par_iter().for_each(|(idx, case)| {
-                if ctx.out_of_time() {
-                    skipped.fetch_add(1, Ordering::Relaxed);
-                    return;
-                }
-                record(*idx, case, judge(&fx, case));
-            });
-            let mut got = 0usize;
             for hdl in handles {
                 let rs = hdl.join().unwrap_or_else(|_| machinery_error("worker driver thread panicked"));
                 got += rs.len();
@@ -1110,43 +1117,59 @@ fn main() {
                     record(i, &cases[i], j);
                 }
             }
-            skipped.fetch_add((wk.len() - got) as u64, Ordering::Relaxed);
         });
-
-        let sk = skipped.load(Ordering::Relaxed);
-        if sk > 0 {
-            exhaustive = false;
-        }
-        skipped_total += sk;
-        evaluations += ev.load(Ordering::Relaxed);
-        nontrivial += nt.load(Ordering::Relaxed);
-        not_applicable += na.load(Ordering::Relaxed);
-        not_a_proof_total += nap.load(Ordering::Relaxed);
-        per_config.push(json!({
+        let sk = (indexed.len() - got) as u64;
+        skipped_total.fetch_add(sk, Ordering::Relaxed);
+        evaluations.fetch_add(ev.load(Ordering::Relaxed), Ordering::Relaxed);
+        nontrivial.fetch_add(nt.load(Ordering::Relaxed), Ordering::Relaxed);
+        not_applicable.fetch_add(na.load(Ordering::Relaxed), Ordering::Relaxed);
+        not_a_proof_total.fetch_add(nap.load(Ordering::Relaxed), Ordering::Relaxed);
+        per_config.lock().unwrap().push((ci, json!({
             "config": fx.name, "family": family(&fx), "desc": fx.desc, "honest": honest_note,
-            "faults_planned": cases.len(), "in_process": inproc.len(), "in_child_process": wk.len(),
+            "faults_planned": cases.len(), "in_child_processes": cases.len(), "child_processes": n_workers,
             "evaluated": ev.load(Ordering::Relaxed), "not_a_proof": nap.load(Ordering::Relaxed), "native_rejects": nt.load(Ordering::Relaxed),
             "fault_not_applicable": na.load(Ordering::Relaxed), "skipped_out_of_time": sk,
-            "outcomes": cfg_out.to_json(), "circuit_builds": fx.stats.to_json(), "wall_s": t0.elapsed().as_secs_f64(),
-        }));
-        configs_done += 1;
+            "outcomes": cfg_out.to_json(), "wall_s": t0.elapsed().as_secs_f64(),
+        })));
+        configs_done.fetch_add(1, Ordering::Relaxed);
         eprintln!(
-            "[C15] t={:.1}s {} cases={} (child {}) evaluated={} native_rejects={} {} {:.1}s",
+            "[C15] t={:.1}s {} cases={} evaluated={} native_rejects={} {} {:.1}s",
             ctx.elapsed_s(),
             fx.name,
             cases.len(),
-            wk.len(),
             ev.load(Ordering::Relaxed),
             nt.load(Ordering::Relaxed),
             cfg_out.to_json(),
             t0.elapsed().as_secs_f64()
         );
-        vpcore::rayon::broadcast(|_| fx.release_thread_engine());
-        fx.release_thread_engine();
-    }
-    if configs_done < n_specs {
-        exhaustive = false;
-    }
+    };
+
+    // configurations are taken in list order (core first) by a few driver threads
+    let n_drivers: usize = ctx.opt("drivers").and_then(|s| s.parse().ok()).unwrap_or(8);
+    std::thread::scope(|sc| {
+        for _ in 0..n_drivers.min(n_specs) {
+            sc.spawn(|| loop {
+                let ci = next_spec.fetch_add(1, Ordering::Relaxed) as usize;
+                if ci >= n_specs || ctx.out_of_time() || (ctx.quick() && ctx.used() > 0.8) {
+                    break;
+                }
+                run_config(ci, &specs[ci]);
+            });
+        }
+    });
+    let configs_done = configs_done.load(Ordering::Relaxed) as usize;
+    let skipped_total = skipped_total.load(Ordering::Relaxed);
+    let exhaustive = configs_done == n_specs && skipped_total == 0;
+    let (evaluations, nontrivial, planned_total, not_applicable, not_a_proof_total) = (
+        evaluations.load(Ordering::Relaxed),
+        nontrivial.load(Ordering::Relaxed),
+        planned_total.load(Ordering::Relaxed),
+        not_applicable.load(Ordering::Relaxed),
+        not_a_proof_total.load(Ordering::Relaxed),
+    );
+    let mut per_config = per_config.into_inner().unwrap();
+    per_config.sort_by_key(|x| x.0);
+    let per_config: Vec<Value> = per_config.into_iter().map(|x| x.1).collect();
 
     let samples: Vec<Value> = samples.into_inner().unwrap().into_values().flatten().collect();
     let cov = json!({
@@ -1178,7 +1201,7 @@ fn main() {
     let assumptions = vec![
         "native Plonky3 0.6.3 verifiers (verify_with_preprocessed, verify_batch; BatchStarkProver::verify_all_tables for circuit-table proofs) define which malformed objects must not be accepted".to_string(),
         "single faults only; integer fault values −1, +1, 0, 63".to_string(),
-        "clause (b) is judged two ways: run Ok on the honestly packed malformed object while native rejects; and, for shortened lists, a returned circuit with fewer Merkle-opening ops than the well-formed shape's circuit while native rejects (the run failing later for arithmetic reasons does not make the truncation a check)".to_string(),
+        "clause (b) is judged two ways: run Ok on the honestly packed malformed object while native rejects; and, for shortened lists, a returned circuit with fewer Merkle-opening ops or fewer private proof inputs than the well-formed shape's circuit while native rejects (the run failing later for arithmetic reasons does not make the truncation a check)".to_string(),
         "clause (b) compares on the SAME parameter set: for parameter faults the native verifier is configured with the faulted value. Parameters the circuit API does not receive (num_queries, max_log_arity, cap height) and FriVerifierParams made inconsistent with the StarkConfig are judged under clause (a) only; their circuit-Ok/native-reject counts are reported".to_string(),
         "circuit verdict = runner outcome on honestly packed inputs of the faulted object (pack_values + set_*_mmcs_private_data)".to_string(),
         "panic keys use crate-relative file + message with numbers abstracted (no line numbers, no values); the line is given in the description".to_string(),
